@@ -345,15 +345,31 @@ def _step1(r, idx, fi):
     if term:
         _early(r, fi, term, construct, ('inside the row', 'entries of the row are not reduced'))
         return
-    net = sum((1 if op == 'Add' else -1) for t, op, v, s in eff if t == 'C' and op in ('Add', 'Sub') and cm.is_name(v, mv))
-    other = [s for t, op, v, s in eff if t == 'C' and not (op in ('Add', 'Sub') and cm.is_name(v, mv))]
+    net = 0
+    other = []
+    for t, op, v, s in eff:
+        if t != 'C':
+            continue
+        k = 1 if cm.is_name(v, mv) else None
+        if k is None and isinstance(v, ast.BinOp) and isinstance(v.op, ast.Mult):
+            for a, b in ((v.left, v.right), (v.right, v.left)):
+                if cm.is_name(a, mv) and isinstance(b, ast.Constant) and isinstance(b.value, (int, float)):
+                    k = b.value
+        if op in ('Add', 'Sub') and k is not None:
+            net += k if op == 'Add' else -k
+        else:
+            other.append(s)
     if other:
         r.undecided(construct, 'cell update `%s`' % short(other[0]), lib.loc(fi, other[0]))
     elif net == -1:
         r.ok(construct, 'every entry of the row minus the row minimum', lib.loc(fi, li))
+    elif net < -1:
+        r.violation(construct, 'each entry of a row changes by %+g * (row minimum): entries smaller than that become negative, which the '
+                    'zero tests and step 6 are not specified for' % net, lib.loc(fi, li), expected='C[i][j] -= minval', found='net %+g' % net)
     else:
-        r.violation(construct, 'each entry of a row changes by %+d * (row minimum) instead of -1' % net, lib.loc(fi, li),
-                    expected='C[i][j] -= minval', found='net %+d' % net)
+        r.ok(construct, 'each entry of a row changes by %+g * (row minimum): a per-row constant that keeps entries >= 0 leaves the set of '
+             'cheapest matchings unchanged (step 6 creates the zeros)' % net, lib.loc(fi, li))
+        r.note('step 1 does not reduce rows by their minimum (net %+g); harmless for optimality, slower' % net)
 
 
 # ------------------------------------------------------------------------ step 2
